@@ -534,6 +534,8 @@ class NpProxy:
         return a.view(SymArray)
 
     def array(self, obj, dtype=None, *a, **kw):
+        if contains_sym(obj) and (dtype is None or (dtype is not object and np.dtype(dtype).kind in "fc")):
+            dtype = None   # float conversion is the identity on symbolic reals
         if dtype is None and contains_sym(obj):
             r = np.array(_base(obj), dtype=object, *a, **kw)
             if r.ndim == 0:
